@@ -31,7 +31,8 @@ import common
 
 LEAN_MODULES = ["PySMT.Props.C19"]
 RULE = ("configuration = exit_on_exception x 2-4 members (mode answer/raise/unknown/exit, delay 0-50 ms, model pick) x "
-        "script of assert/push/pop/solve/get_model/get_values over random Boolean formulas; all 2-member mode pairs "
+        "script of assert/push/pop/solve/is_sat/is_valid/is_unsat/get_model/get_values over random Boolean formulas "
+        "(verdicts and values are judged against the live assertion stack tracked by the harness); all 2-member mode pairs "
         "are enumerated, the rest is drawn from VERIF_SEED.  Non-trivial: at least one member fails, or two "
         "answering members finish within 2 ms of each other (a real race).")
 ASSUMPTIONS = [
@@ -50,6 +51,7 @@ ASSUMPTIONS = [
 BLOCK_S = 10.0       # no progress for this long and no live member process => blocked
 HARD_S = 30.0        # no progress for this long => blocked in any case
 MODES = ("answer", "raise", "unknown", "exit")
+SOLVE_OPS = ("solve", "is_sat", "is_valid", "is_unsat")
 MODE_LETTER = {"raise": "R", "unknown": "U", "exit": "C"}
 DELAYS = (0, 0, 0, 1, 2, 5, 10, 20, 50)
 # the repaired loop polls the queue every 100 ms: members that finish around a multiple of the polling interval
@@ -311,11 +313,17 @@ def _worker(cfg, wfd):
                     p.push()
                 elif op == "pop":
                     p.pop()
-                elif op == "solve":
+                elif op in SOLVE_OPS:
                     winner = None
-                    res = p.solve()
+                    if op == "solve":
+                        res = p.solve()
+                    else:
+                        # one-shot shortcuts of Solver: push, assert, solve, and the level is popped by the next command
+                        res = getattr(p, op)(_to_fnode(mgr, syms, step[1]))
                     rec["res"] = res if type(res) is bool else repr(res)
-                    last_sat = res is True
+                    # verdict of the solve() call inside the shortcut
+                    inner = res if op in ("solve", "is_sat") else (not res if type(res) is bool else res)
+                    last_sat = inner is True
                     ext = p._ext_solver
                     if ext is not None:
                         winner = int(ext.name.split(" ")[0])
@@ -333,7 +341,7 @@ def _worker(cfg, wfd):
                 rec["exc"] = type(e).__name__
                 rec["pysmt_exc"] = isinstance(e, PysmtException)
                 rec["msg"] = str(e)[:200]
-                if op == "solve":
+                if op in SOLVE_OPS:
                     rec["others_alive"] = _others_alive(None)
             rec["dt"] = round(time.time() - t0, 4)
             emit(rec)
@@ -493,8 +501,24 @@ def gen_script(rng, ncycles):
         f = gen_formula(rng)
         if rng.random() < 0.15:
             f = ["and", f, ["not", f]]          # make some calls unsat
-        script.append(["assert", f])
-        script.append(["solve"])
+        kind = rng.random()
+        if kind < 0.3:
+            # one-shot shortcut (push; assert; solve; the temporary level is popped by the NEXT command) ...
+            script.append([rng.choice(["is_sat", "is_sat", "is_valid", "is_unsat"]), f])
+            if rng.random() < 0.3:
+                order = list(range(NVARS))
+                rng.shuffle(order)
+                script.append(["get_values", order])
+            if kind < 0.2:
+                # ... immediately followed by an assertion that must land on the live stack, not on the temporary
+                # level, and that constrains the next answer
+                g = rng.choice([["not", f], ["var", rng.randrange(NVARS)], ["not", ["var", rng.randrange(NVARS)]],
+                                gen_formula(rng, 2)])
+                script.append(["assert", g])
+                script.append(["solve"])
+        else:
+            script.append(["assert", f])
+            script.append(["solve"])
         q = rng.random()
         if q < 0.5:
             script.append(["get_model"])
@@ -567,7 +591,7 @@ def gen_configs(ctx):
                                   else rng.choice([0, 1, 5, 10, 20])}
                                  for i, m in enumerate(modes)],
                      "script": gen_script(rng, rng.choice([1, 2]))})
-    n_random = 320 if ctx.tier == "quick" else 6000
+    n_random = 260 if ctx.tier == "quick" else 6000
     shapes = ["mixed"] * 5 + ["all-fail"] * 2 + ["all-answer"] * 2 + ["one-answer"] * 2 + ["poll"] * 2
     for _ in range(n_random):
         n = rng.choice([2, 3, 3, 4, 4])
@@ -632,11 +656,20 @@ def walk(cfg):
     return out
 
 
+def solve_stack(step, stack):
+    """The assertions that the solve() call of a solve-like step sees: the live stack, plus the formula of a one-shot
+    shortcut on its temporary level (is_valid asks for the satisfiability of the negation)."""
+    if step[0] == "solve":
+        return list(stack)
+    return list(stack) + [["not", step[1]] if step[0] == "is_valid" else step[1]]
+
+
 def describe(cfg):
     return "eoe=%s%s members=[%s] script=[%s]" % (
         cfg["eoe"], (" perturb=%s" % json.dumps(cfg["perturb"], sort_keys=True)) if cfg.get("perturb") else "",
         ", ".join("%s@%dms/pick%d" % (m["mode"], m["delay_ms"], m["pick"]) for m in cfg["members"]),
-        "; ".join(s[0] + (" " + show(s[1]) if s[0] == "assert" else "") for s in cfg["script"]))
+        "; ".join(s[0] + (" " + show(s[1]) if s[0] in ("assert", "is_sat", "is_valid", "is_unsat") else "")
+                  for s in cfg["script"]))
 
 
 def shape_of(cfg):
@@ -677,14 +710,14 @@ def check_result(ctx, cfg, records, blocked, lean_sets, reports):
             # the worker never finished this step
             if blocked:
                 what = "%s blocked (%s)" % (op, blocked)
-                if op == "solve":
-                    cur = stacks[k]
+                if op in SOLVE_OPS:
+                    cur = solve_stack(step, stacks[k])
                     truth = bool(solutions(cur)[1])
                     ctx.count("outcome blocked")
                     allowed = lean_sets.get(lean_line(cfg, truth))
                     if allowed is not None and "blocked" not in allowed[0]:
-                        reports.append(("k", None, "solve() blocked; the model allows only %s" % sorted(allowed[0])))
-                    reports.append(("s", dict(base, oracle="outcome-set", call="solve", observed="blocked"), what))
+                        reports.append(("k", None, "%s() blocked; the model allows only %s" % (op, sorted(allowed[0]))))
+                    reports.append(("s", dict(base, oracle="outcome-set", call=op, observed="blocked"), what))
                 elif op in ("get_model", "get_values") and sat_now is not None:
                     reports.append(("k", None, "%s blocked; the model (A1) says it is answered" % op))
                     reports.append(("s", dict(base, oracle="query", call=op, observed="blocked"), what))
@@ -702,35 +735,41 @@ def check_result(ctx, cfg, records, blocked, lean_sets, reports):
                                 "%s raised %s: %s" % (op, rec["exc"], rec.get("msg"))))
                 return
             continue
-        cur = stacks[k]
-        vs, sols = solutions(cur)
-        truth = bool(sols)
-        if op == "solve":
+        if op in SOLVE_OPS:
+            # the LIVE assertion stack (harness-tracked, SMT-LIB semantics) plus the formula of a one-shot shortcut
+            cur = solve_stack(step, stacks[k])
+            vs, sols = solutions(cur)
+            truth = bool(sols)
             sat_now = None
+            res = rec.get("res")
+            if op in ("is_valid", "is_unsat") and type(res) is bool:
+                res = not res          # verdict of the solve() inside the shortcut
             if "exc" in rec:
                 observed = "err:" + rec["exc"]
-            elif rec.get("res") is True:
+            elif res is True:
                 observed = "v:T"
-            elif rec.get("res") is False:
+            elif res is False:
                 observed = "v:F"
             else:
-                observed = "v:?" + str(rec.get("res"))
+                observed = "v:?" + str(res)
+            if op != "solve":
+                ctx.count("one-shot " + op)
             ctx.count("outcome " + observed.split(":")[0] + (":" + shape_of(cfg)) + (" eoe" if cfg["eoe"] else ""))
             # K: observed in the model's set
             line = lean_line(cfg, truth)
             allowed = lean_sets.get(line)
             if allowed is not None and observed not in allowed[0]:
-                reports.append(("k", None, "solve() -> %s; the model allows only %s for `%s`"
-                                % (observed, sorted(allowed[0]), line)))
+                reports.append(("k", None, "%s() -> %s; the model allows only %s for `%s`"
+                                % (op, observed, sorted(allowed[0]), line)))
             # S: the property text
             ok = py_allowed(cfg, truth)
             # "err:*": the call must report an error of the library (not an OS-level error such as BrokenPipeError)
             good = observed in ok or ("err:*" in ok and observed.startswith("err:") and rec.get("pysmt_exc"))
             if not good:
                 oracle = "verdict" if observed.startswith("v:") else "outcome-set"
-                reports.append(("s", dict(base, oracle=oracle, call="solve", observed=observed.split(" ")[0][:60]),
-                                "solve() -> %s, the property allows %s (assertions %s are %s)%s"
-                                % (observed, sorted(ok), [show(f) for f in cur], "sat" if truth else "unsat",
+                reports.append(("s", dict(base, oracle=oracle, call=op, observed=observed.split(" ")[0][:60]),
+                                "%s() -> %s, the property allows %s (live assertions %s are %s)%s"
+                                % (op if op == "solve" else "solve() inside " + op, observed, sorted(ok), [show(f) for f in cur], "sat" if truth else "unsat",
                                    "; member processes %s were left alive" % rec["others_alive"]
                                    if rec.get("others_alive") else "")))
             if observed.startswith("v:"):
@@ -743,7 +782,7 @@ def check_result(ctx, cfg, records, blocked, lean_sets, reports):
                         ctx.count("race won by a member other than the first fastest")
                 if w is None or not (0 <= w < len(cfg["members"])) or cfg["members"][w]["mode"] != "answer":
                     reports.append(("k", None, "verdict_in_answers: _ext_solver is member %r, which does not answer" % (w,)))
-                    reports.append(("s", dict(base, oracle="winner-answers", call="solve"),
+                    reports.append(("s", dict(base, oracle="winner-answers", call=op),
                                     "solve() returned %s but the surviving member %r is not one that answers" % (observed, w)))
                 if rec.get("others_alive"):
                     reports.append(("k", None, "losers_dead: after solve() returned, member processes %s are still alive"
@@ -768,14 +807,20 @@ def check_result(ctx, cfg, records, blocked, lean_sets, reports):
         asg = {int(name[1:]): val for name, val in got.items()}
         # S: satisfies the assertions (variables without a value: both completions must work => try all)
         free = [v for v in vs if v not in asg]
-        sat_ok = all(all(ev(f, dict(asg, **{v: bool((bits >> i) & 1) for i, v in enumerate(free)})) for f in cur)
-                     for bits in range(1 << len(free))) if len(free) <= NVARS else False
+        def completed(bits):
+            full = dict(asg)
+            full.update({v: bool((bits >> i) & 1) for i, v in enumerate(free)})
+            return full
+        sat_ok = all(all(ev(f, completed(bits)) for f in cur) for bits in range(1 << len(free)))
         if not sat_ok:
             reports.append(("s", dict(base, oracle="model-satisfies", call=op),
                             "%s -> %s does not satisfy the assertions %s" % (op, got, [show(f) for f in cur])))
         # K: served by the winner (its model is a function of its `pick`)
         exp = {v: expected[v] for v in vs}
         seen = {v: asg[v] for v in vs if v in asg}
+        if op == "get_model" and free:
+            reports.append(("k", None, "get_model -> %s has no value for %s, variables of the live assertions %s"
+                            % (got, ["x%d" % v for v in free], [show(f) for f in cur])))
         if op == "get_values":
             # a variable that does not occur in the assertions has the default value of the winner's model
             exp_cmp = {v: exp[v] for v in seen}
